@@ -446,7 +446,7 @@ void MEDDLY::saturation_set_mtrel<EOP, ATYPE>::saturate_1(int L,
     //
     // Copy A to C, saturating children as we go
     //
-    unpacked_node* Au = unpacked_node::New(resF, SPARSE_ONLY);
+    unpacked_node* Au = unpacked_node::New(resF, FULL_ONLY);
     const int Alevel = resF->getNodeLevel(A);
     if (Alevel < L) {
         edge_value zero;
@@ -465,11 +465,15 @@ void MEDDLY::saturation_set_mtrel<EOP, ATYPE>::saturate_1(int L,
     out << "\n";
 #endif
 
-    for (unsigned z = 0; z<Au->getSize(); z++) {
+    for (unsigned i = 0; i<Au->getSize(); i++) {
+        // Handle 0 is not "unreachable" for every set type
+        // (it is distance 0 for integer distances): ask the policy.
+        if (ATYPE::isUnreachable(edgeval(Au, i), Au->down(i))) {
+            continue;
+        }
         node_handle cdp;
         edge_value cdv;
-        saturate_1(L-1, edgeval(Au, z), Au->down(z), cdv, cdp);
-        const unsigned i = Au->index(z);
+        saturate_1(L-1, edgeval(Au, i), Au->down(i), cdv, cdp);
         Cu->setFull(i, cdv, cdp);
     }
 
@@ -542,7 +546,7 @@ void MEDDLY::saturation_set_mtrel<EOP, ATYPE>::
     unsigned i, j;
     node_handle d;
     for (i=0; i<Cu->getSize(); i++) {
-        if (Cu->down(i)) {
+        if (!ATYPE::isUnreachable(edgeval(Cu, i), Cu->down(i))) {
             explorers[L].wasUpdated(i);
         }
     }
